@@ -15,6 +15,23 @@ CLAIMED = {
              'conditions; FIFO/loss-freedom under real interleavings is NOT decided by this technique.',
         design='5/C19', note='trusts clang 14 CFG, libstdc++ semantics of mutex/condition_variable/queue/packaged_task, driver instantiation set'),
 
+    'C01': dict(
+        technique='static analysis: writer/reader table agreement (CODEC) extracted from the resolved PBF/XML/OPL encoder and decoder code, with the proto types in protobuf_tags.hpp as specification witness',
+        text='Decides agreement of what the writers emit with what the readers decode: every emitted PBF field has a consuming decoder case with matching scalar kind, '
+             'zig-zag-ness, packedness and delta coding (both sides checked against the proto type named in the enumerator); DenseNodes/Info columns are pushed and '
+             'serialised under the same option gates; block limits (can_add evaluated over all orderings; constants); XML element/attribute names and OPL field letters '
+             'the writers emit are dispatched on by the readers; writer getter and reader setter pair the same attribute; lon/lat axis and bbox corners agree across formats. '
+             'NOT decided: value-level equality of the round trip, string-table arithmetic, compression layers, escaping (C14).',
+        design='5/C01', note='trusts clang template instantiation of the drivers, the enumerator-name convention of protobuf_tags.hpp, protozero accessor semantics'),
+    'C04': dict(
+        technique='static analysis: storage-alias (use-after-relocation) dataflow over CFGs with interprocedural relocation summaries; member typestate; symbolic size-conservation; CFG pairing rules',
+        text='Decides: no local/parameter/member pointer, reference or iterator into Buffer storage is used after a call that may relocate the storage (relocating calls closed '
+             'over the resolved call graph incl. sub-builder ctors/dtors); Buffer::m_data is re-pointed after every m_memory mutation, swap/move touch every field; growth copies '
+             'before it swaps, grow_internal only with committed data; for every builder method/ctor/dtor the bytes reserved/appended equal the bytes added to the own item and '
+             'to the ancestors (numeric per instantiation for constructors); padding in destructors and after variable-length members; purge_removed: callback before move, '
+             'nothing read through the read iterator after the move, counters from the write iterator; non-copyable/non-movable witnesses. '
+             'NOT decided: byte equality of stored content, padded_length arithmetic.',
+        design='5/C04', note='trusts the frozen relocating/derivation tables (DESIGN appendix B), clang CFG; untracked: references with unknown root (function parameters)'),
     'C07': dict(
         technique='static analysis: interprocedural escaping-exception fixpoint + CFG must-pass/post-dominance + member-order (LAYOUT) rules over the libTooling fact base',
         text='Decides the structural links of the reader pipeline: thread entries cannot leak an exception; catch-all handlers forward current_exception and '
